@@ -197,6 +197,16 @@ def creds():
     return V2C("public")
 
 
+def request_view(entry):
+    """a request as the agent read it, without its request-id (which ids a
+    client picks is its own business: two clients need not pick the same)"""
+    msg = entry.get("msg")
+    if msg is None:
+        return entry["raw"]
+    pdu = msg.get("pdu") or {}
+    return (msg.get("version"), msg.get("community"), pdu.get("tag"), pdu.get("f1"), pdu.get("f2"), tuple(map(tuple, pdu.get("varbinds", ()))))
+
+
 def run_case(label, op, value):
     from puresnmp import PyWrapper
 
@@ -232,7 +242,7 @@ def run_case(label, op, value):
     have = shape(op, got)
     if not leaks and have != want:
         bad("differs-from-pythonised-raw-result", got=repr(have)[:400], expected=repr(want)[:400])
-    if [e["raw"] for e in ag1.log] != [e["raw"] for e in ag2.log]:
+    if [request_view(e) for e in ag1.log] != [request_view(e) for e in ag2.log]:
         bad("wrapper-sent-different-requests")
     return out, len(ag2.log)
 
